@@ -32,7 +32,7 @@ WORLD = dict(offices=["G", "S", "H"], unit_types=["precinct", "precinct", "count
              n_units=(2, 7), zero_baseline_frac=0.06, odd_unit_frac=0.04, prorated_p=0.15)
 PROFILE = dict(estimators=["nonparametric", "nonparametric", "gaussian", "bootstrap"], B=(2, 10), always_unit=True,
                thresholds=[100, 90, 60, 30, 100], blocklist_p=0.5, outlier_models_p=0.3,
-               tf_limits=[(0.5, 2.0), (0.5, 2.0), (0.7, 1.5), (0.2, 5.0), (0.9, 1.1)])
+               tf_limits=[(0.5, 2.0), (0.5, 2.0), (0.7, 1.5), (0.2, 5.0), (0.9, 1.1), (0, 100.0), (0.0, 2.0)])
 FEED = dict(p_loss=0.04, n_foreign=(0, 3), max_polls=3, poll_every=(40.0, 140.0), start_polls_after=150.0,
             surge_frac=0.05, boundary_frac=0.2, versions=(1, 4))
 
